@@ -166,6 +166,9 @@ class DataStream(object):
             rng = self.rng
         else:
             rng = xp.random.default_rng(int(self.rng.integers(2**31)))
+        # As floats: v_std**2 in a narrow numpy type (int8, float16...) overflows in the 
+        # quadrature sum below
+        v_mean, v_std = float(v_mean), float(v_std)
         noise_func = lambda ts: v_mean + v_std * rng.standard_normal(size=len(ts))
         
         # Variances add, not standard deviations
